@@ -354,7 +354,7 @@ def run_case(case, ctx):
 # MANIFEST-BEGIN
 MANIFEST = {
     'technique': 'shadow-model monitor on every DDEHistory update/query (scripted sequences and in-situ DDE runs) + icontract representation invariants',
-    'level_text': 'Every query made during thousands of seeded update/query sequences (several buffer growth events, shapes (), (n,), (n,m), float32/64/complex, queries before/at/between/after records, caller mutation after update, in-place modification of returned arrays followed by a repeated query, integer initial state with float records, malformed updates that must be refused without damage, bounded histories at capacity) and during real Euler/Heun/scipy DDE runs is compared with a list-based piecewise-linear oracle; held on the observed executions only.',
+    'level_text': 'Every query made during thousands of seeded update/query sequences (several buffer growth events, shapes (), (n,), (n,m), float32/64/complex, queries before/at/between/after records, caller mutation after update, in-place modification of returned arrays followed by a repeated query, integer initial state with float records, malformed updates that must be refused without damage, bounded histories at capacity) and during real Euler/Heun/scipy DDE runs is compared with a list-based piecewise-linear oracle Initial states may be boolean, unsigned or 32-bit integer arrays;; held on the observed executions only.',
     'level_note': 'Trusted: the 20-line shadow model; numpy float arithmetic. Update times are strictly increasing in scripted sequences. Representation invariants are skipped (counted) if the private attributes disappear.',
 }
 # MANIFEST-END
